@@ -298,7 +298,14 @@ def run_key_obligation(check, name, shapes, prop_fn, classify, describe, budget_
         check.obligation(name, "mirsym", "inconclusive", "executor gave up: " + "; ".join(sorted(set(errors))[:3]))
         return
     if bad:
+        # the executor and the native build disagree on some path witnesses (a field the state hook cannot plant, a model that is wrong):
+        # nothing is held. Counterexamples are still put to the native confirmation - only what reproduces through the API is reported.
         w, d = bad[0]
+        if vio:
+            status = (confirm or confirm_violations)(check, name, vio, classify, describe)
+            if status in ("violated", "known"):
+                check.obligation(name, "mirsym", status, detail + "; %d counterexample models; witness disagreements: %d" % (len(vio), len(bad)))
+                return
         check.obligation(name, "mirsym", "inconclusive",
                          "executor model disagrees with the native build on %d path witnesses, e.g. %s | inputs %s" % (
                              len(bad), d, json.dumps(w["inputs"], ensure_ascii=False)[:400]))
@@ -1270,7 +1277,7 @@ def make_kar_history(shape, prop_fn=None, constrain=None):
     return build, on_path
 
 
-def kar_scenario(inp, every_key=False):
+def kar_scenario(inp, every_key=False, after_flip=False):
     """Native replay: two contexts, typewriter order with the option on, Unicode order with it off."""
     vals = []
     for v in inp["typewriter"] + inp["unicode"]:
@@ -1286,6 +1293,13 @@ def kar_scenario(inp, every_key=False):
         from common import REPO
         ca["database"] = cb["database"] = REPO + "/data"
     steps = [{"op": "new", "ctx": 0, "config": ca}, {"op": "new", "ctx": 1, "config": cb}]
+    if after_flip and vals:
+        # both contexts start with the option the other way round, compose and erase one key (a word ended by erasing it, or a waiting sign
+        # discarded), and are then re-configured while idle: whatever the method keeps per word must be gone
+        ca0, cb0 = dict(ca, opts=dict(oa, kar_order=False)), dict(cb, opts=dict(ob, kar_order=True))
+        first = PLANT_KEYS[0]
+        steps = [{"op": "new", "ctx": 0, "config": ca0}, {"op": "key", "ctx": 0, "key": first}, {"op": "backspace", "ctx": 0}, {"op": "backspace", "ctx": 0}, {"op": "update", "ctx": 0, "config": ca},
+                 {"op": "new", "ctx": 1, "config": cb0}, {"op": "key", "ctx": 1, "key": first}, {"op": "backspace", "ctx": 1}, {"op": "backspace", "ctx": 1}, {"op": "update", "ctx": 1, "config": cb}]
     for v in inp["typewriter"]:
         steps.append({"op": "key", "ctx": 0, "key": PLANT_KEYS[vals.index(v)]})
         if every_key:
@@ -1349,6 +1363,18 @@ def confirm_kar(check, name, vio, classify, describe):
             if kar_compare(v, res) is None:
                 confirmed = (v, sc, res)
                 break
+            if v["clause"] == "same_text" and v["predicted"].get("panic") is None:
+                # not from new contexts - but perhaps from contexts with a history (the option changed between two words)
+                sc = kar_scenario(v["inputs"], after_flip=True)
+                res = run_replay([sc])[0]
+                rr = res["results"]
+                if not any("panic" in x for x in rr):
+                    states = [x["state"] for x in rr if x.get("op") == "get_state"]
+                    if len(states) == 2 and states[0]["buffer"] != states[1]["buffer"]:
+                        v = dict(v, predicted=dict(v["predicted"], a=states[0]["buffer"], b=states[1]["buffer"], history="both contexts were created with the option the other way round, "
+                                                   "composed and erased one key, and were re-configured while idle"))
+                        confirmed = (v, sc, res)
+                        break
         if confirmed is None:
             st = "inconclusive"
             check.obligation(name + ":" + key, "mirsym", "inconclusive", "counterexample did not reproduce natively: %s" % describe(vs[0])[:300])
@@ -1381,6 +1407,9 @@ def describe_kar(v):
     if v["predicted"].get("shown") is not None:
         return "typewriter order %s with old kar order (options %s): key number %d returns %r while the text composed so far is %r" % (
             i["typewriter"], ",".join(k for k, x in i["opts"].items() if x), v["predicted"].get("key_number", 0), v["predicted"]["shown"], v["predicted"]["composed"])
+    if v["predicted"].get("history"):
+        return "after a history (%s): typewriter order %s with old kar order gives %r, Unicode order %s without it gives %r (options %s)" % (
+            v["predicted"]["history"], i["typewriter"], v["predicted"]["a"], i["unicode"], v["predicted"]["b"], ",".join(k for k, x in i["opts"].items() if x))
     return "typewriter order %s with old kar order gives %r, Unicode order %s without it gives %r (clause %s, options %s)" % (
         i["typewriter"], v["predicted"]["a"], i["unicode"], v["predicted"]["b"], v["clause"],
         ",".join(k for k, x in i["opts"].items() if x))
@@ -1406,6 +1435,11 @@ def obl_kar_order(check, two_syllables, thorough=False, budget_s=None):
         check.obligation("kar_order", "mirsym", "inconclusive", "executor gave up: " + "; ".join(sorted(set(errors))[:3]))
         return
     if bad:
+        if vio:
+            status = confirm_kar(check, "kar_order", vio, classify_kar, describe_kar)
+            if status in ("violated", "known"):
+                check.obligation("kar_order", "mirsym", status, detail + "; %d counterexample models; witness disagreements: %d" % (len(vio), len(bad)))
+                return
         check.obligation("kar_order", "mirsym", "inconclusive", "executor model disagrees with the native build on %d witnesses, e.g. %s | %s" % (
             len(bad), bad[0][1], json.dumps(bad[0][0]["inputs"], ensure_ascii=False)[:300]))
         return
